@@ -9,6 +9,7 @@ import CamVerif.Proofs.C09
 import CamVerif.Proofs.C09Growth
 import CamVerif.Proofs.C08Encode
 import CamVerif.Gen.CmdConsts
+import CamVerif.Proofs.C09GenTie
 namespace CamVerif.C09
 open CamVerif CamVerif.Cmd
 open CamVerif.Spec.GenCP (decodeCmd CmdFields CmdBody slice uintAt)
@@ -632,5 +633,37 @@ example : conformingAck (body (.writeMemStacked ⟨[⟨4, [1, 2], 2, 10⟩, ⟨8
     [0x55, 0x33, 0x56, 0x43, 0, 0, 0x09, 0x08, 8, 0, 7, 0, 0, 0, 2, 0, 0, 0, 0, 0] ∧
     Ack.WriteMemStacked.parse .dev [0, 0, 2, 0, 0, 0, 0, 0]
       ⟨⟨0, .genCp .success⟩, .writeMemStacked, 7, 8⟩ = .ok [2, 0] := by decide
+
+/-! ## Tie by regeneration, function bodies (`rs2lean`, Gen/FnCmd, re-translated on every run)
+
+The length functions the layout theorems above mention (`Cmd.cmdLen`, `Cmd.maximumAckLen`,
+`Cmd.scdLen`, `Cmd.ackScdLen`, `HEADER_LEN`) are hand-written model functions; these theorems prove
+that the Lean functions re-translated from the CURRENT Rust bodies are equal to them, for every
+input and both build profiles — a changed body breaks a proof, not only the differential run. -/
+
+/-- **gen_fn_tie_header_len**: `CommandPacket::header_len` (current source) `= HEADER_LEN`. -/
+theorem gen_fn_tie_header_len : CamVerif.Proofs.C09GenTie.GenTieHeaderLen :=
+  CamVerif.Proofs.C09GenTie.gen_tie_header_len
+
+/-- **gen_fn_tie_cmd_len**: `CommandPacket::cmd_len` (current source), with the generic
+`self.scd.scd_len()` abstracted to an arbitrary `u16`, is `4 + CCD_LEN + scd_len`, i.e.
+`Cmd.cmdLen c` for every command `c` with a `u16` SCD length. -/
+theorem gen_fn_tie_cmd_len : CamVerif.Proofs.C09GenTie.GenTieCmdLen :=
+  CamVerif.Proofs.C09GenTie.gen_tie_cmd_len
+
+/-- **gen_fn_tie_maximum_ack_len**: `CommandPacket::maximum_ack_len` (current source) is
+`ACK_HEADER_LENGTH + max ack_scd_len 4`, i.e. `Cmd.maximumAckLen c`. -/
+theorem gen_fn_tie_maximum_ack_len : CamVerif.Proofs.C09GenTie.GenTieMaximumAckLen :=
+  CamVerif.Proofs.C09GenTie.gen_tie_maximum_ack_len
+
+/-- **gen_fn_tie_scd_len**: `<ReadMem as CommandScd>::{scd_len, ack_scd_len}` and
+`<WriteMem as CommandScd>::ack_scd_len` (current source) are `Cmd.scdLen` / `Cmd.ackScdLen`. -/
+theorem gen_fn_tie_scd_len : CamVerif.Proofs.C09GenTie.GenTieScdLen :=
+  CamVerif.Proofs.C09GenTie.gen_tie_scd_len
+
+/-- non-vacuity: the tie instantiated on a real command -/
+example : (CamVerif.Gen.FnCmd.CommandPacket.cmd_len (ε := Err) .dev
+    (BitVec.ofNat 16 (Cmd.scdLen (.readMem ⟨4, 64⟩)))).map BitVec.toNat = .ok 24 :=
+  gen_fn_tie_cmd_len.2 .dev (.readMem ⟨4, 64⟩) (by decide)
 
 end CamVerif.C09
